@@ -14,17 +14,41 @@ structure Cond where
   threshold : Nat
   deriving Repr, DecidableEq
 
-/-- ASCII white space as `strings.Fields` sees it (the generators use ASCII only). -/
+/-- ASCII white space (`strings.Fields`' fast path, the same set as `unicode.IsSpace` below 0x80). -/
 def isSpace (c : Byte) : Bool := c = 32 || c = 9 || c = 10 || c = 11 || c = 12 || c = 13
 
-/-- `strings.Fields`. -/
-def fieldsAux : Bytes → Bytes → List Bytes
-  | [], cur => if cur.isEmpty then [] else [cur.reverse]
-  | c :: rest, cur =>
-    if isSpace c then (if cur.isEmpty then fieldsAux rest [] else cur.reverse :: fieldsAux rest [])
-    else fieldsAux rest (c :: cur)
+/-- `strings.Fields` on an arbitrary Go string: the number of bytes of the white-space rune
+    (`unicode.IsSpace`) that starts the byte string, 0 if it does not start with one. Beyond
+    ASCII these are U+0085, U+00A0 (C2 85, C2 A0), U+1680 (E1 9A 80), U+2000..U+200A,
+    U+2028, U+2029, U+202F (E2 80 80..8A / A8 / A9 / AF), U+205F (E2 81 9F) and U+3000
+    (E3 80 80). Their first bytes are UTF-8 lead bytes: Go's decoder, which consumes one byte
+    for anything invalid and otherwise a lead byte followed by continuation bytes only, is
+    always at a rune boundary when it meets one, so scanning bytes is scanning runes. -/
+def spaceLen : Bytes → Nat
+  | 0xC2 :: 0x85 :: _ => 2
+  | 0xC2 :: 0xA0 :: _ => 2
+  | 0xE1 :: 0x9A :: 0x80 :: _ => 3
+  | 0xE2 :: 0x80 :: c :: _ => if (0x80 ≤ c ∧ c ≤ 0x8A) ∨ c = 0xA8 ∨ c = 0xA9 ∨ c = 0xAF then 3 else 0
+  | 0xE2 :: 0x81 :: 0x9F :: _ => 3
+  | 0xE3 :: 0x80 :: 0x80 :: _ => 3
+  | c :: _ => if isSpace c then 1 else 0
+  | [] => 0
 
-def fields (s : Bytes) : List Bytes := fieldsAux s []
+theorem spaceLen_le (s : Bytes) : spaceLen s ≤ s.length := by
+  unfold spaceLen
+  split <;> simp <;> (try split) <;> omega
+
+/-- `strings.Fields` (fuel = the length of the input; every step consumes at least a byte). -/
+def fieldsAux : Nat → Bytes → Bytes → List Bytes
+  | 0, _, cur => if cur.isEmpty then [] else [cur.reverse]
+  | _ + 1, [], cur => if cur.isEmpty then [] else [cur.reverse]
+  | n + 1, c :: rest, cur =>
+    let k := spaceLen (c :: rest)
+    if k = 0 then fieldsAux n rest (c :: cur)
+    else if cur.isEmpty then fieldsAux n ((c :: rest).drop k) []
+    else cur.reverse :: fieldsAux n ((c :: rest).drop k) []
+
+def fields (s : Bytes) : List Bytes := fieldsAux s.length s []
 
 def geB : Bytes := [62, 61]                                   -- ">="
 def scoreB : Bytes := [115, 99, 111, 114, 101]                -- "score"
